@@ -741,6 +741,8 @@ class Gen:
             f = Field(fname, "Element", [T("class", target)], rng.choice(["opt", "list"]))
         elif self.on("object", 0.06):
             f = Field(fname, "Element", [T("object", "object")], rng.choice(["opt", "list"]))
+            if f.container == "opt" and self.on("nillable", 0.3):
+                f.nillable = True  # a nillable anyType element: None is written as a nil element
         else:
             types, fmt = self.leaf_types(m)
             conts = ["one", "opt", "default"] + (["list", "list"] if "list" in self.features else [])
@@ -1022,7 +1024,7 @@ class InstGen:
         if t0.kind == "class":
             return self.obj(self.pick_class(t0.name, depth), depth + 1)
         if t0.kind == "object":
-            return self.any_value(depth, qname)
+            return self.any_value(depth, qname, nillable=f.nillable)
         if f.tokens:
             n = rng.randrange(1, 4)
             items = [self.leaf(f.types, f.format, tokens=True) for _ in range(n)]
@@ -1030,11 +1032,15 @@ class InstGen:
         # known findings keep '' / b'' out of Text fields and nillable fields (dedicated probes cover them)
         return self.leaf(f.types, f.format, nonempty=(f.xml == "Text" or f.nillable))
 
-    def any_value(self, depth, qname):
+    def any_value(self, depth, qname, nillable=False):
         """A value for an xs:anyType *element* field (object): primitive -> xsi:type'd, or a generic tree
         that carries the element's own qualified name (the generic form of that very element)."""
         rng = self.rng
         r = rng.random()
+        if nillable:
+            # (an empty value in a nillable field reads back as nil - known findings C01/empty-string-in-nillable-field and
+            # friends - so a nillable anyType field only gets non-empty primitives here)
+            r = 0.3
         if r < 0.07 and not self.json_mode:
             # binary values carry their encoding in the wrapper type (xs:hexBinary / xs:base64Binary), b"" included
             from xsdata.models.datatype import XmlBase64Binary, XmlHexBinary
